@@ -283,6 +283,15 @@ pub fn unicode_snippets() -> Vec<String> {
             out.push(format!("x = 1\n{i} = {v}\ny = '{{{i}}} é {{{i}:>6}}' + '😀'\n"));
         }
     }
+    // format specs: every fill kind (ASCII, precomposed, wide, combining sequence, flag emoji,
+    // ZWJ sequence) x alignment x width / precision / representation
+    for fill in ["", "_", "0", "é", "字", "u\u{308}", "🇯🇵", "👩\u{200d}💻"] {
+        for align in ["<", "^", ">"] {
+            for rest in ["5", "8.2", "6?", "3x", ".1"] {
+                out.push(format!("x = 42\ny = 1.5\nprint '{{x:{fill}{align}{rest}}}|{{y:{fill}{align}{rest}}}|{{'s':{fill}{align}{rest}}}'\n"));
+            }
+        }
+    }
     for v in ["from m import *", "from m import a as b, c", "import m as é", "export é = 1", "x = 0b101 + 0o17 + 1e3 + 1_000", "x = 'a' 'b'", "print '''{1 + 1}'''", "x = r#'{'#", "@main = || 1", "x = 1..=2\ny = ..3\nz = 4.."] {
         out.push(format!("{v}\n"));
     }
